@@ -64,3 +64,12 @@ claim("C06", "Framing.tla defines the encoder (plain and listing-style multi-lin
       "all code/mask pairs over a 7-symbol alphabet and Server.parse_command.", "TLC judgement of recorded encoder/decoder runs against Framing.tla",
       note="Trusted base: TLC; texts with trailing whitespace are outside the family (the codec right-strips by design); the simulated "
            "stream pair; one 8-bit encoding (cp1251) besides utf-8.")
+claim("C15", "Throttle.tla models one limiter in integer ticks (window origin, accounted bytes, half-even fold every reset period, "
+      "concurrent waits, limit change) with RateBound, NoNeedlessDelay and Typed checked exhaustively by TLC on MC_Throttle. Every "
+      "Throttle object's wait/append/limit events - recorded by harness-side wrappers in exact virtual time - during (a) seeded API "
+      "sequences, (b) 1-3 ThrottleStreamIO streams sharing and owning throttles, (c) real client/server transfers with limits at random "
+      "subsets of the five levels - must be a behaviour of the model (a wait ends exactly when the accounting allows, no wait without a "
+      "limit) and satisfy RateBound in every state; ThrottleSys.tla judges ground-truth byte counts against every configured limit and "
+      "unlimited runs must take zero virtual time.", "TLA+ trace validation of throttle event streams (exact virtual time) + TLC model check (MC_Throttle)",
+      note="Trusted base: TLC; limits and times are dyadic (ticks of 1/64 s) so that float arithmetic is exact - arbitrary limits and "
+           "float rounding are not covered; wrappers around Throttle.wait/append/limit are installed by the harness at run time.")
